@@ -41,7 +41,7 @@ ASSUMPTIONS = [
 
 
 def population(tier, seed):
-    n = {"quick": (300, 250, 30), "thorough": (2500, 2000, 200)}[tier]
+    n = {"quick": (300, 250, 30), "thorough": (2000, 1500, 200)}[tier]
     progs = minic_gen.generate(seed * 1000 + 41, PLAT, "c04safe", n[0], "s_")
     progs += minic_gen.generate(seed * 1000 + 42, PLAT, "c04bug", n[1], "b_")
     progs += minic_gen.generate(seed * 1000 + 43, PLAT, "mix", n[2], "m_")
